@@ -659,9 +659,34 @@ def _loader_variants():
     return out
 
 
+PRIOR_LOADS = ('none', 'folder-without-ca', 'direct-without-ca', 'folder-other-ca')
+
+
+def _prior_load(which):
+    """An earlier, weaker use of the loader in the same process (same key and certificate): whatever it leaves behind must not
+    weaken what a later call with a CA file returns."""
+    from sdc11073 import certloader
+    if which == 'folder-without-ca':
+        certloader.mk_ssl_contexts_from_folder(FIX, private_key='a2_key.pem', certificate='a2_cert.pem', ca_public_key=None)
+        certloader.mk_ssl_contexts_from_folder(FIX, private_key='a2_key_enc.pem', certificate='a2_cert.pem', ca_public_key=None,
+                                               ssl_passwd='secret')
+    elif which == 'direct-without-ca':
+        certloader.mk_ssl_contexts(FIX / 'a2_key.pem', FIX / 'a2_cert.pem', None)
+        certloader.mk_ssl_contexts(FIX / 'a2_key_enc.pem', FIX / 'a2_cert.pem', None, None, 'secret')
+    elif which == 'folder-other-ca':
+        certloader.mk_ssl_contexts_from_folder(FIX, private_key='a2_key.pem', certificate='a2_cert.pem', ca_public_key='caB.pem')
+
+
 def _loader(acc, arg):
-    name, _ = arg
+    name, prior = arg
+    prior = prior if prior in PRIOR_LOADS else 'none'
     build = dict(_loader_variants())[name]
+    try:
+        _prior_load(prior)
+    except Exception as ex:  # noqa: BLE001
+        acc.note(f'prior_load_failed_{prior}', repr(ex)[:120])
+    if prior != 'none':
+        name = f'{name}/after-{prior}'
     try:
         cont = build()
     except Exception as ex:  # noqa: BLE001
@@ -740,6 +765,7 @@ def run(ctx):
     ctx.note('configurations_with_injected_fault', len(faults))
     ctx.pmap(_one, ctx.rotate(faults), chunksize=4)
     variants = [(n, None) for n, _ in _loader_variants()]
+    variants += [(n, prior) for n, _ in _loader_variants() for prior in PRIOR_LOADS[1:]]
     ctx.note('certloader_variants', len(variants))
     ctx.pmap(_loader, variants, chunksize=2)
     ctx.note('bounds', 'all 2x3x2x2x2x2x2 TLS configurations x 2 shutdown orders x operations; one injected TLS connect failure at every connect '
@@ -761,5 +787,7 @@ def replay(ctx, case):
         for kind, detail in problems:
             ctx.violation(f'{kind}/{cfg_name(cfg)}', detail)
         return {'outcome': out, 'problems': [p[0] for p in problems], 'connects': sim.connects}
-    _loader(ctx, (case['name'], None))
+    nm = case['name']
+    prior = nm.split('/after-')[1] if '/after-' in nm else None
+    _loader(ctx, (nm.split('/after-')[0], prior))
     return {'loader': case['name']}
